@@ -84,4 +84,6 @@ class Router:
                         client.message_from_device(message)
 
     def process_enable_blob(self, message: EnableBLOB, sender: SenderType):
-        self.blob_routing[sender][message.device] = message.value
+        routing = self.blob_routing.get(sender)
+        if routing is not None:
+            routing[message.device] = message.value
